@@ -2157,6 +2157,12 @@ func (c *Conn) bufferHandshakeRecord(
 			// let unprotected messages pile up in the cache.
 			continue
 		}
+		if established && dtlsstate.CommonState(c.state).LocalVersion.Equal(protocol.Version1_2) {
+			// DTLS 1.2 has no handshake message after the handshake: what the
+			// peer still sends is recognised as a retransmission above and
+			// never read from the cache.
+			continue
+		}
 		c.handshakeCache.Push(out, epoch, header.MessageSequence, header.Type, !dtlsstate.CommonState(c.state).IsClient)
 	}
 
